@@ -11,6 +11,7 @@ import (
 	"strings"
 	"sync"
 	"testing"
+	"time"
 
 	corev1 "k8s.io/api/core/v1"
 	"k8s.io/apimachinery/pkg/api/resource"
@@ -91,6 +92,36 @@ func c01Pod(id, quota string, req map[string]int64, np, bound bool) *corev1.Pod 
 	}
 	return p
 }
+
+// hook plugin used only as a gate at the point where Reserve / Unreserve call the hook plugins
+type c01RaceHook struct {
+	pod   string
+	fire  func()
+	fired bool
+}
+
+func (h *c01RaceHook) GetKey() string { return "verif-race" }
+func (h *c01RaceHook) IsQuotaUpdated(oldQuotaInfo, newQuotaInfo *QuotaInfo, newQuota *v1alpha1.ElasticQuota) bool {
+	return false
+}
+func (h *c01RaceHook) PreQuotaUpdate(oldQuotaInfo, newQuotaInfo *QuotaInfo, quota *v1alpha1.ElasticQuota, state *QuotaUpdateState) {
+}
+func (h *c01RaceHook) PostQuotaUpdate(oldQuotaInfo, newQuotaInfo *QuotaInfo, quota *v1alpha1.ElasticQuota, state *QuotaUpdateState) {
+}
+func (h *c01RaceHook) OnPodUpdated(quotaName string, oldPod, newPod *corev1.Pod) {
+	p := newPod
+	if p == nil {
+		p = oldPod
+	}
+	if p != nil && p.Name == h.pod && !h.fired {
+		h.fired = true
+		h.fire()
+	}
+}
+func (h *c01RaceHook) UpdateQuotaStatus(oldQuota, newQuota *v1alpha1.ElasticQuota) *v1alpha1.ElasticQuota {
+	return nil
+}
+func (h *c01RaceHook) CheckPod(quotaName string, pod *corev1.Pod) error { return nil }
 
 type c01PodRec struct {
 	obj   *corev1.Pod
@@ -196,6 +227,38 @@ func (w *c01World) apply(o c01Op) {
 		old.quota = o.In
 		w.mu.Unlock()
 		w.gqm.MigratePod(old.obj, out, o.In)
+	case "raceDelete":
+		// Reserve / Unreserve of a pod racing the informer's DELETE of the SAME pod: the delete is attempted from
+		// another goroutine at the point inside Reserve/Unreserve where the hook plugins are called (after the assigned
+		// flag was flipped, before used is updated). Whatever the outcome of the race, both calls complete and the pod is gone.
+		w.mu.Lock()
+		old := w.pods[o.Pod]
+		delete(w.pods, o.Pod)
+		w.mu.Unlock()
+		done := make(chan struct{})
+		hook := &c01RaceHook{pod: o.Pod, fire: func() {
+			go func() {
+				w.gqm.OnPodDelete(old.quota, old.obj)
+				close(done)
+			}()
+			select {
+			case <-done:
+			case <-time.After(40 * time.Millisecond): // the delete is (correctly) excluded until the call returns
+			}
+		}}
+		w.gqm.hookPlugins = append(w.gqm.hookPlugins, hook)
+		if o.Variant%2 == 0 {
+			w.gqm.ReservePod(old.quota, old.obj)
+		} else {
+			w.gqm.UnreservePod(old.quota, old.obj)
+		}
+		w.gqm.hookPlugins = w.gqm.hookPlugins[:len(w.gqm.hookPlugins)-1]
+		if !hook.fired {
+			// the call was a no-op (already / not assigned): deliver the delete normally
+			w.gqm.OnPodDelete(old.quota, old.obj)
+		} else {
+			<-done
+		}
 	case "resetAll":
 		w.gqm.ResetQuota()
 	case "node":
@@ -287,6 +350,8 @@ func c01Event(o c01Op) vu.Ev {
 		ev["pod"], ev["q"], ev["req"], ev["np"], ev["bound"] = o.Pod, o.Q, c01V(o.Req), o.Np, o.Bound
 	case "podDelete", "reserve", "unreserve":
 		ev["pod"] = o.Pod
+	case "raceDelete":
+		ev["pod"], ev["variant"] = o.Pod, o.Variant
 	case "migrate":
 		ev["pod"], ev["in"] = o.Pod, o.In
 	case "node":
@@ -346,6 +411,7 @@ type c01Gen struct {
 	pods   map[string]string // pod -> quota (shadow only steers generation)
 	nq, np int
 	big    bool
+	races  int // how many same-pod reserve/unreserve-vs-delete races may still be generated (each costs ~40 ms)
 }
 
 func (g *c01Gen) vec(max int64) map[string]int64 {
@@ -419,6 +485,10 @@ func (g *c01Gen) podOp(forPod string) (c01Op, bool) {
 	switch g.rng.Intn(7) {
 	case 0:
 		delete(g.pods, forPod)
+		if g.races > 0 && g.rng.Intn(3) == 0 {
+			g.races--
+			return c01Op{Op: "raceDelete", Pod: forPod, Variant: g.rng.Intn(2)}, true
+		}
 		return c01Op{Op: "podDelete", Pod: forPod}, true
 	case 1:
 		return c01Op{Op: "reserve", Pod: forPod}, true
@@ -484,7 +554,7 @@ func (g *c01Gen) quotaOp() (c01Op, bool) {
 }
 
 func c01Random(rng *rand.Rand, n int, big bool, conc bool) []c01Op {
-	g := &c01Gen{rng: rng, quotas: map[string]c01Op{}, pods: map[string]string{}, nq: 5, np: 8, big: big}
+	g := &c01Gen{rng: rng, quotas: map[string]c01Op{}, pods: map[string]string{}, nq: 5, np: 8, big: big, races: 2}
 	var out []c01Op
 	for len(out) < n {
 		k := rng.Intn(20)
